@@ -37,6 +37,14 @@ def has_body_headers(request: Request) -> bool:
     )
 
 
+def has_one_shot_body(request: Request) -> bool:
+    # An iterator, such as a generator, can only be consumed once. Once we
+    # have started sending such a body the request cannot be sent again.
+    return has_body_headers(request) and isinstance(
+        request.stream, typing.Iterator
+    )
+
+
 class HTTPConnectionState(enum.IntEnum):
     ACTIVE = 1
     IDLE = 2
@@ -420,7 +428,12 @@ class HTTP2Connection(ConnectionInterface):
         with self._read_lock:
             if self._connection_terminated is not None:
                 last_stream_id = self._connection_terminated.last_stream_id
-                if stream_id and last_stream_id and stream_id > last_stream_id:
+                if (
+                    stream_id
+                    and last_stream_id
+                    and stream_id > last_stream_id
+                    and not has_one_shot_body(request)
+                ):
                     self._request_count -= 1
                     raise ConnectionNotAvailable()
                 raise RemoteProtocolError(self._connection_terminated)
